@@ -431,6 +431,7 @@ def check_analytic_exact(case, ctx):
               oid(md, "mse_linear_qoperation"))
     ctx.close(qt.calc_mse_linear_analytical(true, ns), ref_obj, lin_tol(md, ref_obj, tn2),
               oid(md, "mse_linear_qoperation:default_mode"))
+    ctx.raises(ValueError, lambda: qt.calc_mse_linear_analytical(true, ns, mode="object"), "mse_linear:rejects_unknown_mode")
 
 
 # ============================================================================= facet: end to end through LinearEstimator
@@ -671,9 +672,10 @@ def check_helpers(case, ctx):
         ctx.nontrivial(True)
         return
     if kind == "left_inv":
-        a = np.asarray(case["a"], dtype=float)
+        # entries quantised to multiples of 2^-12 (no denormal-scale inputs: A^T A must not under/overflow)
+        a = np.round(np.asarray(case["a"], dtype=float) * 4096.0) / 4096.0
         sv = np.linalg.svd(a, compute_uv=False)
-        if sv[0] == 0 or sv[-1] < 1e-3 * sv[0] or a.shape[0] < a.shape[1]:
+        if sv[0] < 1e-2 or sv[-1] < 1e-3 * sv[0] or a.shape[0] < a.shape[1]:
             ctx.skip("ill-conditioned")
             return
         cond = float(sv[0] / sv[-1])
@@ -777,6 +779,8 @@ def check_helpers(case, ctx):
         ctx.close(got[1], std, 1e-11 * (1 + mean), "calc_mse_qoperations:std_ddof1")
         got2 = da.calc_mse_qoperations(xs, [qs[0]] * len(xs), mode="qoperation", with_std=False)
         ctx.close(got2, mean, 1e-12 * (1 + mean), "calc_mse_qoperations:no_std")
+        ctx.raises(ValueError, lambda: da.calc_mse_qoperations(xs, [qs[0]] * len(xs), mode="object"),
+                   "calc_mse_qoperations:rejects_unknown_mode")
         ctx.label(objs[0]["type"], f"flag:{flag}")
         ctx.nontrivial(len(xs) >= 3)
         return
